@@ -163,7 +163,47 @@ static void op_mgmt(int nt, char **t) {
     if (ledger_live()) printf(" LEAK(%d)", ledger_live());
 }
 
+/* ie <rsn|wpa|msft> <hex>: the element decoders called directly on an exactly sized block (C01, C08)
+ *   rsn : libwifi_get_rsn_info(info, p, p + n)         (p = element body)
+ *   wpa : libwifi_get_wpa_info(info, p, p + n)         (p = what follows the 4-byte vendor header)
+ *   msft: libwifi_bss_handle_msft_tag(bss, p, n)       (p = vendor element body, bss zeroed) */
+static void op_ie(int nt, char **t) {
+    (void) nt;
+    size_t n; unsigned char *p = hexbuf(t[2], &n);
+    printf("ie %s ", t[1]);
+    if (strcmp(t[1], "rsn") == 0) {
+        struct libwifi_rsn_info i; memset(&i, prefill, sizeof i);
+        int r; LIB(r = libwifi_get_rsn_info(&i, p, p + n));
+        if (r != 0) printf("err"); else {
+            printf("ok %u,", i.rsn_version); pr_suite(&i.group_cipher_suite);
+            printf(",%d[", i.num_pairwise_cipher_suites);
+            for (int k = 0; k < LIBWIFI_MAX_CIPHER_SUITES; k++) { pr_suite(&i.pairwise_cipher_suites[k]); putchar(' '); }
+            printf("],%d[", i.num_auth_key_mgmt_suites);
+            for (int k = 0; k < LIBWIFI_MAX_CIPHER_SUITES; k++) { pr_suite(&i.auth_key_mgmt_suites[k]); putchar(' '); }
+            printf("],%u", i.rsn_capabilities);
+        }
+    } else if (strcmp(t[1], "wpa") == 0) {
+        struct libwifi_wpa_info i; memset(&i, prefill, sizeof i);
+        int r; LIB(r = libwifi_get_wpa_info(&i, p, p + n));
+        if (r != 0) printf("err"); else {
+            printf("ok %u,", i.wpa_version); pr_suite(&i.multicast_cipher_suite);
+            printf(",%u[", i.num_unicast_cipher_suites);
+            for (int k = 0; k < LIBWIFI_MAX_CIPHER_SUITES; k++) { pr_suite(&i.unicast_cipher_suites[k]); putchar(' '); }
+            printf("],%u[", i.num_auth_key_mgmt_suites);
+            for (int k = 0; k < LIBWIFI_MAX_CIPHER_SUITES; k++) { pr_suite(&i.auth_key_mgmt_suites[k]); putchar(' '); }
+            printf("]");
+        }
+    } else {
+        struct libwifi_bss b; memset(&b, 0, sizeof b);
+        int r; LIB(r = libwifi_bss_handle_msft_tag(&b, p, (int) n));
+        if (r != 0) printf("err"); else printf("ok e%llu,w%u,%u", (unsigned long long) b.encryption_info, b.wps, b.wpa_info.wpa_version);
+    }
+    hfree(p);
+    if (ledger_live()) printf(" LEAK(%d)", ledger_live());
+}
+
 const struct op ops_frame[] = {
+    {"ie", op_ie},
     {"mgmt", op_mgmt},
     {"eapol", op_eapol},
     {"classify", op_classify},
